@@ -602,6 +602,15 @@ impl NISPSignaturePoK {
 
         let mut t_Cx = Integer::from(1);
         let N = &signer_pk.N;
+
+        // the commitments are elements of Z_N^*, given by their reduced representative
+        if [&self.Cx, &self.Cv, &self.Cw, &self.Ce]
+            .into_iter()
+            .any(|c| *c <= 0 || c >= N)
+        {
+            return false;
+        }
+
         let mut idx: usize = 0;
         let mut idx_revealed_msgs: usize = 0;
 
